@@ -106,7 +106,9 @@ func c13streamChild(raw json.RawMessage, scratch string) {
 			}
 			cmds = append(cmds, c)
 			// a command that is not key-addressed follows one command in two
-			switch rng.Intn(8) {
+			switch rng.Intn(9) {
+			case 8:
+				cmds = append(cmds, srcCmd{Name: rng.PickS("flushdb", "FLUSHALL")}) // not key-addressed and without any argument
 			case 0, 1:
 				cmds = append(cmds, srcCmd{Name: rng.PickS("SELECT", "select"), Args: [][]byte{[]byte(strconv.Itoa(rng.Intn(4)))}})
 			case 2:
